@@ -499,18 +499,31 @@ func run(e *core.Env) {
 		}
 		for round, rounds := 1, 1+tp.Intn(2); round <= rounds; round++ {
 			sh.ReglSetOut(0xFFFF_FFFF - uint32(1+tp.Intn(4)))
-			var epochFrames []sealed
+			var epochFrames, oldFrames []sealed
 			crossed := false
 			for i := 0; i < 9; i++ {
 				fr := sealOne("across the wrap")
 				if fr.seq <= 8 && !crossed {
 					crossed = true
-					epochFrames = nil // frames of the new epoch only
+					oldFrames = epochFrames // accepted under the previous keys
+					epochFrames = nil       // frames of the new epoch only
 				}
 				if err := deliverE2E(fr.data); err != nil {
 					e.Fail("regular/fresh-refused/across-the-wrap", "roll-over %d: in-order frame number %d refused: %v", round, fr.seq, err)
 				}
 				epochFrames = append(epochFrames, fr)
+			}
+			// What was accepted under the previous keys arrives once more, right after the
+			// roll-over (the new epoch is at its first few numbers): a receiver that goes on
+			// serving late frames of the previous epoch has to remember which of them it has
+			// had. Fresh frames of the new epoch follow.
+			if tp.Chance(1, 2) {
+				for _, k := range tp.Perm(len(oldFrames)) {
+					if err := deliverE2E(oldFrames[k].data); err == nil {
+						e.Fail("regular/dup-accepted/previous-epoch-after-roll-over", "roll-over %d: frame number %d, accepted before the roll-over, unsealed a second time after it", round, oldFrames[k].seq)
+					}
+				}
+				e.Probe("previous_epochs_frames_again_after_a_roll_over")
 			}
 			sh.ReglSetOut(0xFFFF_FF00 + uint32(tp.Intn(100)))
 			for i := 0; i < 3; i++ {
